@@ -27,6 +27,7 @@ sys.path.insert(0, os.path.dirname(os.path.abspath(__file__)))
 import c06_world as W  # noqa: E402
 
 EXTRACTORS = ["Cache"]
+EXTRA_PROPS = ["C06Hash"]   # pyEq_hash, frozen_key_eq_iff (Props/C06Hash.lean)
 
 # ================================================================================================= (a) values
 from c06_world import (NP_KIND, KIND_TYPENAME, KIND_TYPE, INT_KINDS, FLOAT_KINDS, BOOL_KINDS, ALL_KINDS, Converter)  # noqa: E402,F401
@@ -724,6 +725,8 @@ def correspondence_values(ctx, drv, table, n_pairs):
     disagreements = 0
     batch = []
     meta = []
+    conv_frozen = ctx.facts.get("Cache", {}).get("convEq") == "frozen"
+    tags_all = bool(ctx.extra.get("table_status", {}).get("tagsAll"))
 
     def flush():
         nonlocal disagreements
@@ -732,12 +735,29 @@ def correspondence_values(ctx, drv, table, n_pairs):
         res = drv.ask_many(batch)
         for (kind, a, b, real), r in zip(meta, res):
             if kind == "pair":
-                model = {"eq": r["hit"], "hash_eq": r["hash_eq"]}
+                # `hitF`: equal hash and == with ConvertibleTensor.__eq__ on the frozen concretes (the tree being checked);
+                # `hit`: the raw comparison of the pinned tree
+                model = {"eq": r["hitF"] if conv_frozen else r["hit"], "hash_eq": r["hash_eq"]}
+                # shadows of the theorems of Props/C06Hash.lean on the real values:
+                # pyEq_hash (CPython side, independent of the model): `==` between two frozen keys implies equal hashes
+                if real.get("raw_eq") and not real["hash_eq"] and disagreements < 5:
+                    disagreements += 1
+                    ctx.tie_broken("correspondence:hash-consistency", f"a={a!r} b={b!r}: the frozen values are == but hash differently (a later call may or may not hit)")
+                # frozen_key_eq_iff: the real keys are == exactly when the model's exact observations of the raw values agree
+                if tags_all and conv_frozen and r["flat"]:
+                    ctx.count("pairs:exact-observation-checked")
+                    if r["exact"] != real["eq"] and disagreements < 5:
+                        disagreements += 1
+                        ctx.tie_broken("correspondence:key-eq-iff-exact-observation", f"a={a!r} b={b!r}: real key equality {real['eq']} vs exact observation equality {r['exact']}")
+                    if r["exact"] != r["eqF"]:
+                        raise core.MachineryError(f"driver contradicts frozen_key_eq_iff on a={a!r} b={b!r}")
+                if r["wf"] and r["eqF"] and not r["hash_eq"]:
+                    raise core.MachineryError(f"driver contradicts pyEq_hash on a={a!r} b={b!r}")
                 if model != {"eq": real["eq"], "hash_eq": real["hash_eq"]} and disagreements < 5:
                     disagreements += 1
                     ctx.tie_broken("correspondence:freeze-eq-hash", f"a={a!r} b={b!r}: CPython {real} vs model {model}")
                     ctx.sample({"DISAGREEMENT": True, "a": repr(a), "b": repr(b), "real": real, "model": model})
-                if r["hit"] and real["eq"] and not r["typed"]:
+                if model["eq"] and real["eq"] and not r["typed"] and not _has_factory_placeholder(a) and not _has_factory_placeholder(b):
                     collisions.append((a, b))
                     ctx.count("collision:" + "|".join(sorted([type_sig(a), type_sig(b)]))[:80])
                 ctx.count("pairs:key-equal" if real["eq"] and real["hash_eq"] else "pairs:key-different")
@@ -752,15 +772,12 @@ def correspondence_values(ctx, drv, table, n_pairs):
         batch.clear()
         meta.clear()
 
-    conv_frozen = ctx.facts.get("Cache", {}).get("convEq") == "frozen"
     for i in range(n_pairs):
         a = gen_value(rng)
         b = mutate(rng, a) if rng.random() < 0.85 else gen_value(rng)
-        if conv_frozen and (_has_factory_placeholder(a) or _has_factory_placeholder(b)):
-            # M9 models the raw comparison of `concrete` (the pinned tree); with the frozen comparison the placeholders of
-            # tensor factories are outside the pair correspondence (the search and the memo correspondence still cover them)
-            ctx.count("pairs:skipped-factory-placeholder")
-            continue
+        if _has_factory_placeholder(a) or _has_factory_placeholder(b):
+            # `keyEq` (Cache/KeyEq.lean) models the frozen comparison of `concrete`, `pyEq` the raw one of the pinned tree
+            ctx.count("pairs:with-factory-placeholder")
         cv = Converter()
         try:
             fa, fb = _freeze_value(a), _freeze_value(b)
@@ -769,6 +786,13 @@ def correspondence_values(ctx, drv, table, n_pairs):
             try:
                 heq = hash(fa) == hash(fb)
                 eq = fb in {fa: 1}          # the cache's own mechanism: equal hash, then ==
+                try:
+                    raw_eq = bool(fa == fb)
+                except Exception:
+                    # `==` itself fails (e.g. numpy scalar against a huge Python int through an untyped comparison): the
+                    # cache never gets there when the hashes differ; nothing to say about hash consistency for this pair
+                    raw_eq = None
+                    ctx.count("pairs:raw-eq-raised")
             except TypeError:
                 # unhashable leaf that fell through (not generated) – or a comparison that does not return a bool
                 raise core.MachineryError(f"generated value not hashable/comparable after freezing: {a!r} / {b!r}")
@@ -776,7 +800,7 @@ def correspondence_values(ctx, drv, table, n_pairs):
             raise
         env = cv.env_json()
         batch.append({"kind": "pyeq", "table": table, "env": env, "a": ja, "b": jb})
-        meta.append(("pair", a, b, {"eq": eq, "hash_eq": heq}))
+        meta.append(("pair", a, b, {"eq": eq, "hash_eq": heq, "raw_eq": raw_eq}))
         if i % 4 == 0:
             batch.append({"kind": "freeze", "table": table, "v": ja})
             meta.append(("freeze", a, None, jfa))
@@ -898,7 +922,7 @@ def run(ctx):
         "array constraints, array / Python scalar / tensor-factory arguments, graph=True, explicit and `with` backends incl. nested and exceptional exits, parse / solve / "
         "trace / run-time failures, adapters, solve_* / matches); every outcome is compared with the same call in a pristine forked interpreter")
     ctx.assumptions.append("CPython/numpy `==` and `hash` on values that are not exactly representable in every float kind, NaN, and the identity short-cut of container "
-                           "comparison are outside the model M9; ndarray values inside ConvertibleTensor.concrete (tensor-factory defaults) are outside the model and covered by the search only")
+                           "comparison are outside the model M9; ndarray values inside ConvertibleTensor.concrete (tensor-factory defaults) are not generated by the pair correspondence (the frozen comparison `keyEq` would treat them through tolist()) and are covered by the search only")
     ctx.assumptions.append("the pristine interpreter is a fork of a process that imported numpy and einx and never called einx; warm and cold runs share the machine, the numpy build and the environment")
     collisions = []
     if ctx.driver_ok:
